@@ -53,7 +53,7 @@ CHECK_TEXT.update({
     "C11": _e("Probe-command life cycle from the callbacks: init once before the first exec, finalize exactly once, never two live instances of one command or of an overlap group, one command object per invocation, every initialized instance finalized after the final Stop.", "DESIGN.md 4.C11"),
     "C12": _e("Cancel/force requests at drawn ticks on offered, arbitrary and unknown run-log items: offered requests accepted and effective (a cancelled Watch never runs its body, a cancelled command - identified by its invocation - never executes again), others change nothing. Five genuine defects of cancel/force are known findings.", "DESIGN.md 4.C12"),
     "C13": _e("Malformed methods, junk injections, unknown commands and request storms: no exception leaves Engine.tick or a request handler; a failing instruction pauses with Method Status Error and a failed line; Stop stays effective.", "DESIGN.md 4.C13"),
-    "C14": _e("Injected snippets at drawn ticks, around pauses/holds and before live edits: each injected Mark takes effect at most once and never in a tick entered Paused/Holding; accepted injections into a Running run take effect.", "DESIGN.md 4.C14"),
+    "C14": _e("Injected snippets at drawn ticks, around pauses/holds and before live edits: each injected Mark takes effect at most once and never in a tick entered Paused/Holding; accepted injections into a Running run take effect; valid injected code never turns a run that ends cleanly without it into an error run (injection-free twin run).", "DESIGN.md 4.C14"),
     "C15": _e("Run log produced every few ticks in every SIM-E profile: producible, sorted, distinct ids, end >= start, concluded items have an end and are not offered, every line reported executed has a completed (or cancelled) item.", "DESIGN.md 4.C15"),
     "C16": _e("Every queued tag update inspected after its tick: tick_time within [engine start, end of this tick's span), per tag non-decreasing, a value changed in this tick stamped in this tick.", "DESIGN.md 4.C16"),
     "C20": _e("The editor's semantic analysis, built from the definitions the engine publishes, gates generated methods; accepted ones are executed with trajectories that drive all conditions; no run-time failure by unknown name, rejected argument or incompatible units. Weakest fit of the family (programs x configurations); no faults involved.", "DESIGN.md 4.C20",
@@ -63,12 +63,12 @@ CHECK_TEXT.update({
     "C41": _e("Macro-heavy methods: per completed call the body tokens of the latest executed definition appear once; RecursionError never escapes a tick.", "DESIGN.md 4.C41"),
     "C27": {"technique": "deterministic simulation: real EngineRunner on a virtual-time asyncio loop over a faulty simulated link; produce/attempt/deliver history checked at quiescence",
             "design_ref": "DESIGN.md 3 SIM-R, 4.C27",
-            "level_text": "Seeded link-fault schedules (outages up to 130 s, sends lost before/after delivery, connect refusals, latency spread) with engine events at drawn times; after faults stop and 75 simulated seconds: nothing produced while disconnected is lost, the buffer is empty in steady state, duplicates only after a failed attempt, one sequence number per message, buffered run data before the run's stop notification. Four genuine defects are known findings.",
+            "level_text": "Seeded link-fault schedules (outages up to 130 s, sends lost before/after delivery, connect refusals, latency spread, a send that hangs on a half-open connection and fails after the recovery) with engine events at drawn times; after faults stop and 75 simulated seconds: nothing produced while disconnected is lost, the buffer is empty in steady state, duplicates only after a failed attempt, one sequence number per message, buffered run data before the run's stop notification. Four genuine defects are known findings.",
             "level_note": "Trusted: the link model (a failed send kills the connection until the next connect), the recording far end, the virtual-time loop (FIFO for callbacks ready at the same instant). Real: EngineRunner, message builder, engine, serialization."},
     "C40": {"technique": "deterministic simulation of two real threads: baton-passing scheduler with sys.settrace line pre-emption; outcome compared with both serial orders",
             "design_ref": "DESIGN.md 3 SIM-T, 4.C40",
             "level_text": "One tick against one request (edit, inject, control command, cancel, force) under seeded pre-emption points inside the tick and the request; no exception in either thread and an observable outcome equal to request-before-tick or tick-before-request, each recomputed from the same prefix. No repo hook: the trace hook gives finer pre-emption than hand-placed yield points.",
-            "level_note": "Trusted: the scheduler and the lock replacement (same mutual exclusion as threading.Lock, yields instead of blocking); pre-emption only at line boundaries of the traced repo files."},
+            "level_note": "Trusted: the scheduler and the lock replacement (same mutual exclusion and release semantics as threading.Lock, yields instead of blocking; whether a contended acquire with a timeout times out is a decision of the plan); pre-emption only at line boundaries of the traced repo files."},
 })
 _A_NOTE = ("Trusted: scripted engines follow the engine protocol; in-memory SQLite is the only state that survives a restart; "
            "commits are not faulted; virtual-time loop with FIFO ready queue. Real: Aggregator, handlers, dispatcher entry points, "
@@ -81,13 +81,13 @@ def _a(text, ref):
 
 
 CHECK_TEXT.update({
-    "C28": _a("Run histories with engine disconnect + re-register, graceful restart and crash restart at drawn points: the run continues under the same id, later tag data lands in its plot log, one RecentRun after stop. Crash restarts are a known finding (state is persisted only on disconnect/shutdown).", "DESIGN.md 3 SIM-A, 4.C28"),
+    "C28": _a("Run histories with engine disconnect + re-register, graceful restart and crash restart at drawn points: the run continues under the same id, later tag data lands in its plot log, one RecentRun after stop; the engine's return overlaps the handling of its disconnect (slow web push) and of its new websocket (slow id round trip). Crash restarts are a known finding (state is persisted only on disconnect/shutdown).", "DESIGN.md 3 SIM-A, 4.C28"),
     "C29": _a("PlotLogEntryValue rows per (run, tag): strictly increasing times, batches further apart than the data log interval, every stored value was reported at or before its time.", "DESIGN.md 4.C29"),
     "C30": _a("RecentRun and PlotLog rows per run id under duplicated / resent start and stop notifications, disconnects and restarts: exactly one each.", "DESIGN.md 4.C30"),
-    "C31": _a("Groups of 1-3 concurrent saves with drawn engine round-trip latencies and error replies: at most one accepted per base version, version +1 per accepted save.", "DESIGN.md 4.C31"),
+    "C31": _a("Groups of 1-3 concurrent saves with drawn engine round-trip latencies and error replies: at most one accepted per base version - also over the whole history, with engine method reports (some built saves ago) arriving in between - and version +1 per accepted save.", "DESIGN.md 4.C31"),
     "C35": _a("Error-log batches with repeats, immediate duplicates and reordered pairs: dup-only runs equal the reference aggregator of the statement; no entry is lost.", "DESIGN.md 4.C35"),
     "C37": _a("Subscribe / register / unregister / disconnect histories: active_users[unit] equals the registered users with a live connection after every event.", "DESIGN.md 4.C37"),
-    "C38": _a("Engines with name pairs over an alphabet containing the separator and URL-special characters: different pairs never share an id; a registration never takes over a connected id.", "DESIGN.md 4.C38"),
+    "C38": _a("Engines with name pairs over an alphabet containing the separator and URL-special characters: different pairs never share an id; a registration never takes over a connected id; websockets go through the dispatcher's real connect / reject / disconnect path and an open accepted websocket stays connected under its id.", "DESIGN.md 4.C38"),
 })
 
 _PURE = "pure function of its arguments - no clock, schedule, fault, crash point or second party can change the outcome, so deterministic simulation has nothing to decide (DESIGN.md section 5)"
